@@ -554,5 +554,7 @@ Proof.
   exists [SClock 10; SPutSeeder conc_ex_ih false conc_ex_pk], 50.
   exists [0; 0; 0; 0; 0; 0; 1; 1; 1; 1; 0; 1; 0; 1]%nat.
   split; [repeat apply Forall_cons_2; try apply Forall_nil_2; by repeat split|].
-  by vm_compute.
+  cbv zeta. split; [by vm_compute|]. split; [by vm_compute|]. split; [by vm_compute|]. split; [by vm_compute|].
+  (* [vm_compute] on [_ = ∅] would normalise the Countable instance inside the type *)
+  split; [apply map_to_list_empty_iff; by vm_compute|]. by vm_compute.
 Qed.
